@@ -33,6 +33,8 @@ pub enum Kind {
     Probe,
     /// `let y = x.clone().untracked().tracked();` - a second handle on the same array whose flags went off and on
     Retrack,
+    /// a refused call (a custom operation whose forward closure panics) on a live handle
+    Refused,
 }
 
 #[derive(Clone, Debug)]
@@ -86,7 +88,7 @@ impl GenCfg {
     pub fn programs(exact_only: bool) -> GenCfg {
         use Kind::*;
         GenCfg {
-            kinds: vec![(Binary, 30), (Unary, 18), (Leaf, 8), (SumReshape, 8), (Matmul, 8), (Rebind, 6), (Custom, 6), (CloneH, 3), (Conv, 4), (IfGt, 5), (Flag, 4), (Retrack, 3), (DropH, 2)],
+            kinds: vec![(Binary, 30), (Unary, 18), (Leaf, 8), (SumReshape, 8), (Matmul, 8), (Rebind, 6), (Custom, 6), (CloneH, 3), (Conv, 4), (IfGt, 5), (Flag, 4), (Retrack, 3), (DropH, 2), (Refused, 2)],
             max_rank: 3,
             max_size: 3,
             max_elems: 64,
@@ -632,6 +634,12 @@ impl<'a> El<'a> {
                             }
                         }
                     }
+                }
+            }
+            Kind::Refused => {
+                let cands: Vec<usize> = all_live.iter().copied().filter(|h| !self.is_grad(*h)).collect();
+                if !cands.is_empty() {
+                    self.emit(Step::RefusedOp { h: pick(i[1], &cands) });
                 }
             }
             Kind::Probe => {
